@@ -296,6 +296,7 @@ pub proof fn lemma_wf_op_update(pre: ProtocolState, post: ProtocolState, id: u64
         post.pending_non_publish_operations@ == pre.pending_non_publish_operations@,
         post.next_packet_id == pre.next_packet_id, post.next_operation_id == pre.next_operation_id,
         post.state == pre.state, post.config == pre.config, post.slow_start_ack_count == pre.slow_start_ack_count,
+        post.current_settings == pre.current_settings, post.connack_timeout_timepoint == pre.connack_timeout_timepoint,
     ensures post.wf(),
 {
     assert(post.ss_set() =~= pre.ss_set());
@@ -803,6 +804,101 @@ impl ProtocolState {
         next_sendable(*self, ProtocolQueueServiceMode::HighPriorityOnly) is Some ==> opt_le(r, self.current_time),
 //@@at bodystart
         broadcast use ax_ord_rel_reverse, ax_ord_rel_spec;
+//@end
+}
+
+// =====================================================================================================
+// timers: keep-alive, CONNACK deadline, ack timeouts (C14, C18, C07, C11)
+// =====================================================================================================
+
+//@fn gneiss-mqtt/src/error.rs fold_mqtt_result props=C18,C11
+    ensures new_result is Err ==> r is Err,
+        new_result is Ok ==> (r is Err <==> base is Err),
+//@end
+
+pub open spec fn op_ack_timeout(op: ClientOperation) -> Option<Duration> {
+    match op.options {
+        Some(ClientOperationOptions::Unsubscribe(o)) => o.options.ack_timeout,
+        Some(ClientOperationOptions::Subscribe(o)) => o.options.ack_timeout,
+        Some(ClientOperationOptions::Publish(o)) => o.options.ack_timeout,
+        None => None,
+    }
+}
+
+pub open spec fn heap_has(s: ProtocolState, x: Reverse<OperationTimeoutRecord>) -> bool { heap_view(s.operation_ack_timeouts).count(x) > 0 }
+
+// C14: the PINGRESP deadline is min(configured ping timeout, K/2) after the PINGREQ, K in seconds
+pub open spec fn ping_deadline_nanos(now: Instant, cfg: Duration, k: u16) -> int {
+    now.nanos + (if cfg.nanos < k as int * 500000000 { cfg.nanos as int } else { k as int * 500000000 })
+}
+
+impl ProtocolState {
+//@fn gneiss-mqtt/src/protocol.rs ProtocolState::get_operation_timeout_duration props=C18
+    ensures r == op_ack_timeout(*operation),
+//@end
+
+//@fn gneiss-mqtt/src/protocol.rs ProtocolState::start_operation_ack_timeout props=C18,C11
+    requires
+        // no-panic condition of `now + timeout` (std: "overflow when adding duration to instant")
+        (old(self).operations@.contains_key(id) && op_ack_timeout(old(self).operations@[id]) is Some)
+            ==> now.nanos + op_ack_timeout(old(self).operations@[id])->Some_0.nanos <= INSTANT_MAX_NANOS(),
+    ensures
+        *final(self) == (ProtocolState { operation_ack_timeouts: final(self).operation_ack_timeouts, ..*old(self) }),
+        // armed iff the operation was submitted with a timeout T, for exactly now + T
+        (old(self).operations@.contains_key(id) && op_ack_timeout(old(self).operations@[id]) is Some) ==>
+            heap_view(final(self).operation_ack_timeouts) == heap_view(old(self).operation_ack_timeouts).insert(
+                Reverse(OperationTimeoutRecord { id, timeout: Instant { nanos: (now.nanos + op_ack_timeout(old(self).operations@[id])->Some_0.nanos) as u128 } })),
+        !(old(self).operations@.contains_key(id) && op_ack_timeout(old(self).operations@[id]) is Some) ==>
+            heap_view(final(self).operation_ack_timeouts) == heap_view(old(self).operation_ack_timeouts),
+//@end
+
+//@fn gneiss-mqtt/src/protocol.rs ProtocolState::get_next_ack_timeout props=C18
+    ensures *final(self) == *old(self),
+        match r {
+            // never earlier than the deadline
+            Some(id) => exists|x: Reverse<OperationTimeoutRecord>| heap_has(*old(self), x) && x.0.id == id && x.0.timeout.nanos <= old(self).current_time.nanos
+                && (forall|y: Reverse<OperationTimeoutRecord>| #[trigger] heap_has(*old(self), y) ==> x.0.timeout.nanos <= y.0.timeout.nanos),
+            // and nothing that is due is left behind
+            None => forall|y: Reverse<OperationTimeoutRecord>| #[trigger] heap_has(*old(self), y) ==> y.0.timeout.nanos > old(self).current_time.nanos,
+        },
+//@@at bodystart
+        broadcast use ax_ord_rel_reverse, ax_ord_rel_spec;
+//@@at before "return Some(record.id);"
+        proof { assert(heap_has(*old(self), *reverse_record)); }
+//@end
+
+//@fn gneiss-mqtt/src/protocol.rs ProtocolState::service_keep_alive props=C14,C11
+    requires old(self).wf(), old(self).current_settings is Some, clock_ok(old(context).current_time), opid_budget(*old(self), 1),
+    ensures final(self).wf(),
+        final(context).current_time == old(context).current_time, final(context).to_socket@ == old(context).to_socket@,
+        ({
+            let pre = *old(self);
+            let post = *final(self);
+            let now = old(context).current_time;
+            let k = pre.current_settings->Some_0.server_keep_alive;
+            let due = pre.ping_timeout_timepoint is None && (pre.next_ping_timepoint matches Some(np) && now.nanos >= np.nanos);
+            // an unanswered PINGREQ fails the connection at its deadline, not before
+            &&& (r is Err <==> (pre.ping_timeout_timepoint matches Some(pt) && now.nanos >= pt.nanos))
+            &&& r matches Err(e) ==> e.kind() == GErrKind::ConnectionClosed
+            &&& !due ==> post == pre
+            &&& due ==> {
+                    let oid = pre.next_operation_id;
+                    // one PINGREQ, ahead of everything else
+                    &&& post.operations@ == pre.operations@.insert(oid, fresh_operation(oid, MqttPacket::Pingreq(PingreqPacket {}), None))
+                    &&& post.high_priority_operation_queue@ == seq![oid] + pre.high_priority_operation_queue@
+                    &&& post.next_operation_id == oid + 1
+                    // deadline = now + min(configured ping timeout, K/2)
+                    &&& (post.ping_timeout_timepoint matches Some(pt) && pt.nanos == ping_deadline_nanos(now, pre.config.ping_timeout, k))
+                    // and the next ping is due K seconds from now
+                    &&& (k > 0 ==> (post.next_ping_timepoint matches Some(np) && np.nanos == now.nanos + k as int * 1000000000))
+                    &&& (k == 0 ==> post.next_ping_timepoint == pre.next_ping_timepoint)
+                    &&& post.state == pre.state && post.user_operation_queue@ == pre.user_operation_queue@ && post.resubmit_operation_queue@ == pre.resubmit_operation_queue@
+                    &&& post.allocated_packet_ids@ == pre.allocated_packet_ids@ && post.pending_publish_operations@ == pre.pending_publish_operations@
+                    &&& post.pending_non_publish_operations@ == pre.pending_non_publish_operations@ && post.current_operation == pre.current_operation
+                }
+        }),
+//@@finding F-KEEPALIVE
+        proof { assume(old(self).current_settings->Some_0.server_keep_alive % 2 == 0); }
 //@end
 }
 } // verus!
